@@ -215,6 +215,12 @@ impl<'a> Driver<'a> {
     /// reference lexing agrees with the code's own one-shot lexing on the whole effective input
     fn compute_ref_ok(&mut self) {
         let s = &self.s[..self.s_eff_len];
+        if s.len() > 100_000 {
+            // giant inputs: the reference model is not consulted at all (P1-P4, X1, L1 apply)
+            self.ref_ok = false;
+            self.stats.hit("ref_model_skipped_giant_input");
+            return;
+        }
         self.ref_ok = match self.rf.lex_all(s) {
             Some(r) => {
                 r.len() == self.oracle.len()
@@ -548,6 +554,7 @@ impl<'a> Driver<'a> {
             if pending > 0 || vlen < avail_len {
                 self.stats.none_with_pending = true;
                 self.stats.hit("probe_none_with_pending_bytes");
+                if pending > (1 << 20) { self.stats.hit("probe_none_with_more_than_a_mib_pending"); }
                 if self.ref_ok && pending > 0 && self.rf.has_recorded_match(&view[r..]) {
                     self.stats.hit("probe_none_with_recorded_shorter_match");
                 }
@@ -774,6 +781,38 @@ fn exec(def: &DefInfo, rf: &Ref, sc: &Scenario) -> Outcome_ {
 // besides a few ordinary ones: the byte order mark, and characters at the extremes of the UTF-8 byte classes
 const MULTI: &[&str] = &["é", "€", "𝔸", "ж", "ß", "🦀", "\u{2003}", "α", "\u{FEFF}", "\u{FEFF}", "\u{80}", "\u{BF}", "\u{7FF}", "\u{800}", "\u{FFFF}", "\u{10000}", "\u{10FFFF}"];
 
+/// An input with ONE token (or skip) of more than a MiB between ordinary segments, so that a partial lexer whose buffer ends
+/// inside it has more than a MiB pending. Only for definitions and shapes known to lex in linear time (an unterminated
+/// string of that size makes one-shot lexing itself quadratic: every error restarts the scan): (opener, unit, closer).
+fn giant_shape(def: &DefInfo) -> Option<(&'static [u8], &'static [u8], &'static [u8])> {
+    Some(match def.name {
+        "Kw" => (b"", b"a", b" "),
+        "Json" => (b"\"", b"a", b"\""),
+        "StrCom" => (b"/*", b"x", b"*/"),
+        "SkipHeavy" => (b"x", b" ", b"x"),
+        "Lines" => (b"", b"a", b"\n"),
+        "Trailer" => (b"__END__", b"z", b""),
+        "TrailerStr" => (b"__END__", b"z", b""),
+        "LongLit" => (b" ", b"=", b" "),
+        "Uni" => (b" ", "\u{e9}".as_bytes(), b" "),
+        "BytesHi" => (b"a", b"\x80", b"a"),
+        "Ini" => (b"#", b"c", b"\n"),
+        "Borrowed" => (b":", b"a", b":"),
+        _ => return None,
+    })
+}
+
+fn gen_giant_input(rng: &mut Rng, def: &DefInfo, shape: (&[u8], &[u8], &[u8])) -> Vec<u8> {
+    let mut out: Vec<u8> = Vec::new();
+    for _ in 0..rng.below(3) { out.extend_from_slice(*rng.pick(def.frags)); out.push(b' '); }
+    out.extend_from_slice(shape.0);
+    let total = out.len() + (1 << 20) + rng.range(1, 300_000);
+    while out.len() < total { out.extend_from_slice(shape.1); }
+    out.extend_from_slice(shape.2);
+    for _ in 0..rng.below(4) { out.extend_from_slice(*rng.pick(def.frags)); }
+    if def.utf8 { String::from_utf8_lossy(&out).into_owned().into_bytes() } else { out }
+}
+
 fn gen_input(rng: &mut Rng, def: &DefInfo, rf: &Ref, max_len: usize) -> Vec<u8> {
     let mut out: Vec<u8> = Vec::new();
     let target = match rng.below(40) {
@@ -898,10 +937,29 @@ fn scenario_for(world: &World, seed: u64, index: u64, max_len: usize) -> (usize,
     let variant = j % RUNS_PER_INPUT;
     let (def, rf) = &world.defs[di];
     let mut irng = Rng::for_run(seed, &format!("stream-input/{}", def.name), input_id);
-    let input = gen_input(&mut irng, def, rf, max_len);
+    // one input in 800 holds a run of more than a MiB (thresholds far above the usual sizes); such inputs are fed in a few
+    // large pieces only (every fill re-lexes what is pending)
+    let shape = if input_id % 800 == 399 { giant_shape(def) } else { None };
+    let giant = shape.is_some();
+    let input = match shape { Some(sh) => gen_giant_input(&mut irng, def, sh), None => gen_input(&mut irng, def, rf, max_len) };
     let mut rng = Rng::for_run(seed, "stream-sim", index);
-    let events = gen_events(&mut rng, input.len(), variant < 5);
-    let per_item = rng.chance(1, 2);
+    let events = if giant {
+        let n = input.len();
+        let mut ev = Vec::new();
+        let mut left = n;
+        for _ in 0..rng.range(1, 3) {
+            if left <= 1 { break; }
+            let k = match rng.below(3) { 0 => rng.range(1, left.min(64)), 1 => rng.range(left.saturating_sub(64).max(1), left), _ => rng.range(1, left) };
+            ev.push(Ev::Read(k));
+            left -= k.min(left);
+        }
+        ev
+    } else {
+        gen_events(&mut rng, input.len(), variant < 5)
+    };
+    // (a giant input is lexed by the per-fill consumer only: the per-item one re-validates the rest of the buffer for every
+    // item, which is quadratic when the run turns out to be a million one-byte items)
+    let per_item = rng.chance(1, 2) && !giant;
     let exact_alloc = rng.chance(1, 2);
     let with_extras = rng.chance(1, 3);
     // handle operations between items: mostly none, otherwise one of the four kinds
